@@ -46,6 +46,12 @@ decls += [
  ("CHARs?", "sync", "-", "const:chars:" + hx("VOLT")),
  ("ARB?", "async", "-", "const:arb:" + hx("a\nb;c")),
  ("LONG?", "async", "-", "const:str:" + hx("x" * 40)),
+ ("RAISe:BIG?", "async", "-", "err:-223"),
+ ("RAISe:SYS?", "sync", "-", "err:-310"),
+ ("RAISe:UNDef", "async", "-", "err:-113"),
+ ("RAISe:QUERy?", "async", "-", "err:-400"),
+ ("RAISe:OVERflow", "sync", "-", "err:-350"),
+ ("RAISe:ARG?", "async", "u8", "err:-115"),
 ]
 iface("echo", "SE", 10, "full", decls)
 
